@@ -1,11 +1,13 @@
-\* add-checkpoint only: two requests, forks, one fault, one restart
+\* add-checkpoint only: two concurrent requests at a time, forks, sizes up to 5, two faults, two
+\* restarts (1.08 M distinct states, about 2.5 min). Three concurrent requests do not finish:
+\* 19 M distinct states and growing after 15 min even with sizes up to 3.
 SPECIFICATION Spec
 CONSTANTS
-  Reqs = {"r1", "r2", "r3"}
-  MaxN = 4
+  Reqs = {"r1", "r2"}
+  MaxN = 5
   ForkPoint = 2
-  MaxFaults = 1
-  MaxRestarts = 1
+  MaxFaults = 2
+  MaxRestarts = 2
   WithMirror = FALSE
   TW = 2
 INVARIANTS CosignedChain RecordedBeforeReleased PublishedWasRecorded
